@@ -76,6 +76,8 @@ Cur &cur();
 struct Violation { std::string prop, sig, detail; int op; };
 
 struct BFail { int bop = -1; int mode = 0; int rc = -1; int fired = 0; };  // armed backend-op failure
+struct DlFail { int sym_nth = 0; int open = 0; int fired = 0; };   // armed loader failure: n-th dlsym / dlopen of the library from now returns NULL
+extern thread_local DlFail g_dlfail;
 enum { BOP_INIT = 0, BOP_ENCODE, BOP_DECODE, BOP_RECONSTRUCT, BOP_FRAGSNEEDED };
 
 struct World {
